@@ -211,12 +211,21 @@ package store
 //@   trusted frame: bookkeeping callback, does not touch the reader's configuration
 //@ func pkg/sync.NewWaitCloser(f) (r)
 //@   trusted frame: allocates a wait object
+//   positionedAt  the absolute file position the last Seek on the segment file asked for (-1: none yet)
+//@ func os.File.Seek(self, offset, whence) (pos, err)
+//@   trusted library contract
+//@   modifies nothing
 //@ func AofRotateReader.openFile
 //@   arith int
 //@   properties C05 C08
 //@   requires checksum_check_needs_the_data_set_lock_free: r.verifyCrc ==> dsMuxHeld == 0
 //@   requires nonnil: r != nil
-//@   modifies heap
+//@   ghost var positionedAt mathint = 0 - 1
+//@   modifies heap, positionedAt
+//@   set positionedAt = 0 - 1 at call OpenFile
+//@   set positionedAt = 0 - 1 at call isCorrupted
+//@   set positionedAt = ite(whence == 0 && result1 == nil, offset, 0 - 1) after call Seek
+//@   ensures an_opened_segment_is_read_from_its_first_record_not_from_its_file_header: result == nil ==> positionedAt == headerSize
 //@ func NewAofRotateReader
 //@   arith int
 //@   properties C05 C08
